@@ -29,9 +29,9 @@ def check_pair(before, after, stats):
     except symexec.Mismatch as mm:
         ms = T.ModelState(mm.model)
         # indirect-jump choices are not part of the model; try the default (first target) and all single deviations
-        ta, tb = T.concrete_traces(before, sa, after, sb, ms, (), MAX_VISITS)
+        ta, tb = T.concrete_traces(before, sa, after, sb, ms, tuple(mm.choices), MAX_VISITS)
         idx = T.traces_differ(ta, tb)
-        return {"what": mm.what, "confirmed": idx is not None, "state": ms.stored, "diff_index": idx,
+        return {"what": mm.what, "confirmed": idx is not None, "state": ms.stored, "diff_index": idx, "choices": list(mm.choices),
                 "trace_before": repr(ta[idx] if idx is not None and idx < len(ta) else None)[:400],
                 "trace_after": repr(tb[idx] if idx is not None and idx < len(tb) else None)[:400]}
     except irsmt.SortError as e:
@@ -122,7 +122,7 @@ def run(prop, tier):
                         culprit = pn
                         break
             key = "%s/%s" % (culprit, kind)
-            path = save_replay(prop, "%s_%s_%d" % (culprit, kind, n_checked), {"property": prop, "engine": "tv", "program": inp, "state": res.get("state"), "what": res["what"], "pass": culprit,
+            path = save_replay(prop, "%s_%s_%d" % (culprit, kind, n_checked), {"property": prop, "engine": "tv", "program": inp, "state": res.get("state"), "choices": res.get("choices", []), "what": res["what"], "pass": culprit,
                                                                    "trace_before": res.get("trace_before"), "trace_after": res.get("trace_after")})
             violations.append({"key": key, "what": "%s changes behaviour (%s): %s | before: %s | after: %s" % (culprit, kind, res["what"], res.get("trace_before"), res.get("trace_after")), "replay": path})
     uniq = {}
@@ -179,7 +179,7 @@ def replay(prop, path):
     for k in ("regs", "sp"):
         before.setdefault(k, inp[k]); after.setdefault(k, inp[k])
     ms = T.ModelState(None, d.get("state") or {"regs": {}, "mem": {}, "uf": {}})
-    ta, tb = T.concrete_traces(before, sub_of(before), after, sub_of(after), ms, (), MAX_VISITS)
+    ta, tb = T.concrete_traces(before, sub_of(before), after, sub_of(after), ms, tuple(d.get("choices", [])), MAX_VISITS)
     idx = T.traces_differ(ta, tb)
     if idx is not None:
         print("VIOLATION property=%s replay=%s" % (prop, path))
